@@ -681,6 +681,9 @@ impl Mass for Locomotive {
     }
 
     fn expunge_mass_fields(&mut self) {
+        // `derived_mass` bails when these are given and a component mass is not
+        self.baseline_mass = None;
+        self.ballast_mass = None;
         match &mut self.loco_type {
             PowertrainType::ConventionalLoco(conv) => conv.expunge_mass_fields(),
             PowertrainType::HybridLoco(hev) => hev.expunge_mass_fields(),
